@@ -40,8 +40,9 @@ ASSUMPTIONS = [
 ]
 TRUSTED = ['tarfile', 'os.path.realpath']
 PARTIAL = ('containment is proved for ALL archives and trees, links included (untar_never_escapes); that benign members are '
-           'extracted with their content is proved for one-component names in link-free trees only (benign_file_extracted_partial) '
-           'and otherwise checked by the oracle; tarfile\'s hard-link copy fallback is outside the model')
+           'extracted with their content is proved for archives of regular files with plain names of any depth, none below another '
+           '(benign_archive_extracted, benign_member_extracted); directory members, repeated names and permissions are checked '
+           'by the oracle only; the hard-link copy fallback of tarfile is outside the model')
 _cache = {}
 
 
